@@ -111,6 +111,10 @@ class Snap(object):
     def __init__(self, tag):
         self.tag, self.at_fill, self.refs = tag, [], []
 
+    def __eq__(self, other):
+        # user elements may define equality by their parameters (the framework's own do)
+        return type(other) is type(self) and other.tag == self.tag
+
     def fill(self, v):
         self.at_fill.append(copy.deepcopy(v))
         self.refs.append(v)
@@ -122,6 +126,9 @@ class Snap(object):
 class SnapReq(object):
     def __init__(self, tag):
         self.tag, self.at_fill, self.refs = tag, [], []
+
+    def __eq__(self, other):
+        return type(other) is type(self) and other.tag == self.tag
 
     def fill(self, v):
         self.at_fill.append(copy.deepcopy(v))
@@ -140,6 +147,9 @@ class NumSum(object):
 
     def __init__(self):
         self.el = Sum()
+
+    def __eq__(self, other):
+        return type(other) is type(self) and other.el == self.el
 
     def fill(self, v):
         d, c = _dc(v)
@@ -189,24 +199,47 @@ def mk_term(term, tag):
     raise AssertionError(term)
 
 
-def mk_branch_elements(spec, tag):
-    """spec = {"kind": fc|fr|seq|bare, "muts": [...], "term": ...}"""
+class Post(object):
+    """marks the results of branch *tag*"""
+
+    def __init__(self, tag):
+        self.tag = tag
+
+    def __call__(self, r):
+        return ("B", self.tag, r)
+
+
+def mk_branch_elements(spec, tag, shared=None):
+    """spec = {"kind": fc|fr|seq|bare, "muts": [...], "term": ...}
+    A spec marked "twin" is built from the very same stateless element objects as the other
+    branches of its twin group (kept in *shared*) and a terminal that compares equal to theirs:
+    the branches are then equal under == although they are different sequences with their own state."""
+    tag = spec.get("tag", tag)
+
+    def memo(key, mk):
+        if shared is None or not spec.get("twin"):
+            return mk()
+        if key not in shared:
+            shared[key] = mk()
+        return shared[key]
+    if spec["kind"] == "source":
+        # a branch that does not read the flow: produces its own values when the first block arrives
+        return [lena.core.Source(lambda: iter([("S", tag, 0), ("S", tag, 1)]))]
     if spec["kind"] == "bare":
         # a bare framework accumulator as a branch (it keeps the context of the last value by
         # reference until compute(), so it shows what happens to the value it was handed)
         return [NumSum() if spec["term"] == "sum" else Count("bare%d" % tag)]
-    els = [mk_mut(m, tag, spec["kind"] == "seq") for m in spec["muts"]]
+    els = [memo(("m", tag, j), lambda m=m: mk_mut(m, tag, spec["kind"] == "seq")) for j, m in enumerate(spec["muts"])]
     if spec["kind"] in ("fc", "fr"):
         els.append(mk_term(spec["term"], tag))
-        els.append(lambda r: ("B", tag, r))
-    else:
-        els.append(lambda v: ("B", tag, v))
+    els.append(memo(("post", tag), lambda: Post(tag)))
     return els
 
 
-def mk_branch(spec, tag):
-    els = mk_branch_elements(spec, tag)
-    if spec["kind"] == "bare":
+def mk_branch(spec, tag, shared=None):
+    els = mk_branch_elements(spec, tag, shared)
+    tag = spec.get("tag", tag)
+    if spec["kind"] in ("bare", "source"):
         return els[0]
     if spec["kind"] == "seq" and (tag % 2 or any(m[0] == "count" for m in spec["muts"])):
         # a tuple containing Count would be taken for a fill/compute branch
@@ -214,12 +247,30 @@ def mk_branch(spec, tag):
     return tuple(els)
 
 
+def with_twin(case):
+    """the branch specifications of the case; if the case asks for it and the last branch allows it,
+    one earlier branch becomes a twin (equal under ==) of the last one"""
+    specs = copy.deepcopy(case["branches"])
+    tw = case.get("twin")
+    last = specs[-1]
+    if tw is None or last["kind"] not in ("fc", "fr") or any(m[0] in ("count", "stop") for m in last["muts"]):
+        return specs
+    t = len(specs) - 1
+    specs[-1] = dict(last, twin=True, tag=t)
+    specs[tw % t] = copy.deepcopy(specs[-1])
+    return specs
+
+
 def alone(spec, tag, blocks, driver):
     """The branch alone on private deep copies: list (per block) of result
     lists plus the final results."""
     els = mk_branch_elements(spec, tag)
     per_block, final = [], []
-    if spec["kind"] in ("fc", "bare"):
+    if spec["kind"] == "source":
+        vals = list(els[0]())
+        per_block = [vals if bi == 0 else [] for bi in range(len(blocks))]
+        final = vals if not blocks else []
+    elif spec["kind"] in ("fc", "bare"):
         seq = FillComputeSeq(*els) if spec["kind"] == "fc" else els[0]
         stopped = False
         for b in blocks:
@@ -297,7 +348,7 @@ def branch_case(draw):
     branches = []
     for i in range(nb):
         if driver == "run":
-            kind = draw(st.sampled_from(["fc", "fc", "fr", "seq", "seq", "bare"]))
+            kind = draw(st.sampled_from(["fc", "fc", "fr", "seq", "seq", "bare", "source"]))
         elif driver in ("fill_compute", "zip_fc"):
             kind = draw(st.sampled_from(["fc", "fc", "fc", "bare"]))
         else:
@@ -309,7 +360,7 @@ def branch_case(draw):
             term = "snapreq"
         elif kind == "bare":
             term = draw(st.sampled_from(["sum", "sum", "count"]))
-        muts = draw(st.lists(mut_strat, min_size=0, max_size=3)) if kind != "bare" else []
+        muts = draw(st.lists(mut_strat, min_size=0, max_size=3)) if kind not in ("bare", "source") else []
         if driver == "run" and kind in ("fc", "fr") and draw(st.integers(0, 2)) == 0:
             # the branch stops taking values (LenaStopFill) after k of them
             pos = draw(st.integers(0, len(muts)))
@@ -319,6 +370,7 @@ def branch_case(draw):
     n = len(flow)
     bufsize = draw(st.one_of(st.integers(1, 4), st.sampled_from([n + 1, 1000, None])))
     return {"driver": driver, "branches": branches, "flow": flow, "bufsize": bufsize,
+            "twin": draw(st.sampled_from([None, None, None, 0, 1, 2])),
             "request_after": draw(st.lists(st.integers(0, 7), max_size=2))}
 
 
@@ -328,14 +380,15 @@ def _only_data(v):
 
 
 def judge_branches(case):
-    driver, specs, bufsize = case["driver"], case["branches"], case["bufsize"]
+    driver, specs, bufsize = case["driver"], with_twin(case), case["bufsize"]
+    shared = {}
     flow = mkvals(case["flow"])
     n = len(flow)
     try:
         if driver.startswith("zip"):
-            sp = Zip([mk_branch(s, i) for i, s in enumerate(specs)])
+            sp = Zip([mk_branch(s, i, shared) for i, s in enumerate(specs)])
         else:
-            sp = Split([mk_branch(s, i) for i, s in enumerate(specs)], bufsize=bufsize)
+            sp = Split([mk_branch(s, i, shared) for i, s in enumerate(specs)], bufsize=bufsize)
     except (LenaTypeError, LenaValueError) as e:
         raise Violation("valid-branches-rejected", "%s: %s" % (short(case), e))
 
@@ -404,7 +457,8 @@ def judge_branches(case):
     return {"nontrivial": nt,
             "classes": ["driver=" + driver, "mutating-branches=%d" % nmut, "flow>=2" if n >= 2 else "flow<2",
                         "mutator-not-last-branch" if any(m[0] != "id" for s in specs[:-1] for m in s["muts"]) else "only-last-mutates",
-                        "non-last-branch-stops-midflow" if stops else "no-midflow-stop"]}
+                        "non-last-branch-stops-midflow" if stops else "no-midflow-stop",
+                        "twin-branches" if any(s.get("twin") for s in specs) else "no-twin"]}
 
 
 # --------------------------------------------------------------------------
@@ -439,6 +493,9 @@ ACCS = {
     "SIB2d(Sum)": (lambda: SplitIntoBins(Sum(), lena.variables.Combine(Variable("x", lambda d: d), Variable("y", lambda d: d + 1)), [[0, 5, 10], [0, 6, 12]]), "num"),
     "MeanMulti": (lambda: Mean(sum_seq=MultiAcc(2)), "num"),
     "Vect(Hist)": (lambda: Vectorize(Histogram([0, 5, 10]), dim=2), "pair"),
+    "Vect(multi)": (lambda: Vectorize(MultiAcc(3), dim=2), "pair"),
+    "Vect[multi,Sum]": (lambda: Vectorize([MultiAcc(2), Sum()]), "pair"),
+    "Vect(Store1)": (lambda: Vectorize(StoreFilled(yield_as_a_group=False), dim=2), "pair"),
     "Graph": (lambda: lena.structures.Graph(), "point"),
     "FCSeq(Sum)": (lambda: FillComputeSeq(lambda v: v, Sum(), lambda r: r), "num"),
     "FCSeq(Var,Hist)": (lambda: FillComputeSeq(Variable("y", lambda d: d), Histogram([0, 5, 10])), "num"),
@@ -666,3 +723,7 @@ CHECKS = [
     Check("accumulator_matrix", judge_acc, cases=acc_matrix, exhaustive=True,
           rule="every accumulator configuration x 4 fixed histories (complete)."),
 ]
+
+
+from .. import covfuzz  # noqa
+CHECKS.append(covfuzz.check(CHECKS, "harness.props.c04", "branches", quick=3000, thorough=80000))
